@@ -37,7 +37,9 @@ def gen_step(rng, i, ops=OPS, big=False, maxdata=None, fails=False):
         size = rng.choice([0, 1, 7, 100, 4000, 5000, 70000] + ([300000] if big else []))
         return {"op": op, "path": "/pull%d" % i, "size": size, "seed": sd, "rec": rng.choice(["64k", "one", "random", "alt", "zeros"]),
                 "split": rng.choice(["whole", "random", "random", "blocks", "bytes1" if size <= 300 else "random"]),
-                "dest": rng.choice(["bytesio", "bytesio", "path"]), "cb": rng.choice([None, None, "ok", "raise"])}
+                "dest": rng.choice(["bytesio", "bytesio", "path"]), "cb": rng.choice([None, None, "ok", "raise"])} if not (fails and rng.random() < 0.2) else \
+               {"op": op, "path": "/pull%d" % i, "size": rng.choice([5000, 70000, 200000]), "seed": sd, "rec": rng.choice(["one", "random"]), "split": rng.choice(["random", "blocks"]),
+                "dest": "failing", "fail_after": rng.choice([0, 1, 2]), "cb": None}
     if op == "push":
         size = rng.choice([0, 1, 100, 2047, 2048, 2049, 4087, 4088, 4089, 10000, 70000] + ([300000] if big else []))
         st = {"op": op, "path": "/push%d" % i, "size": size, "seed": sd, "src": rng.choice(["bytesio", "bytesio", "file"]),
@@ -124,10 +126,14 @@ class Runner(object):
         kw = {"decode": step["decode"]}
         if step.get("take") is not None:
             kw["take"] = step["take"]
+        if step.get("timeout_s") is not None and op != "streaming_shell":
+            kw["timeout_s"] = step["timeout_s"]
         return op, (step["cmd"],), kw, chunks
 
     def judge_shell(self, step, chunks, out):
         op = step["op"]
+        if not out.ok and step.get("timeout_s") is not None and out.exc_name() == "AdbTimeoutError":
+            return []          # a whole-command limit on a slow link may legitimately expire
         if not out.ok:
             return self._raised("C01", step, out)
         if op == "streaming_shell":
@@ -224,7 +230,9 @@ class Runner(object):
             plan.split_mode = step["split"]
         cb_calls = []
         cb = make_callback(self.sess.impl, step.get("cb"), cb_calls)
-        if step.get("dest") == "path":
+        if step.get("dest") == "failing":
+            dest = FailingIO(step.get("fail_after", 1))
+        elif step.get("dest") == "path":
             dest = os.path.join(self.tmpdir(), "pulled%d" % i)
             if rng.random() < 0.5:
                 with open(dest, "wb") as f:
@@ -235,6 +243,15 @@ class Runner(object):
 
     def judge_pull(self, step, ctx, out):
         content, dest, cb, cb_calls = ctx
+        if isinstance(dest, FailingIO):
+            # the local write failed: the call must raise that error (a short file as success would be wrong), nothing else is demanded here
+            if out.ok and dest.failed:
+                return [self._v("C08", "local-write-error-swallowed", "pull(%s) returned normally although writing the destination raised ENOSPC" % step["path"])]
+            if not out.ok and dest.failed and out.exc_name() != "OSError":
+                return [self._v("C08", "raised:%s" % out.exc_name(), "pull(%s) into a full disk raised %s" % (step["path"], out.brief(120)))]
+            if out.ok and dest.getvalue() != content:
+                return [self._v("C08", "wrong-bytes", "pull(%s) wrote %d bytes, device file has %d" % (step["path"], len(dest.getvalue()), len(content)))]
+            return []
         if not out.ok:
             return self._raised("C08", step, out)
         if isinstance(dest, io.BytesIO):
@@ -299,6 +316,23 @@ class Runner(object):
 
     def do_pull(self, i, step):
         return self.run_step(i, step)
+
+
+class FailingIO(io.BytesIO):
+    """a destination whose write() raises ENOSPC from the n-th call on (the local disk is full)"""
+
+    def __init__(self, fail_after):
+        io.BytesIO.__init__(self)
+        self.fail_after = fail_after
+        self.writes = 0
+        self.failed = False
+
+    def write(self, data):
+        self.writes += 1
+        if self.writes > self.fail_after:
+            self.failed = True
+            raise OSError(28, "No space left on device (deliberate)")
+        return io.BytesIO.write(self, data)
 
 
 def make_callback(impl, kind, calls):
